@@ -305,6 +305,11 @@ def run_rlimit(acc, shard):
                 v0.append(("rlimit_get_wrong", f"{name}: psutil {g0} kernel {(cur_soft, cur_hard)}"))
             acc.case(dict(kind="rlimit_get", res=name), False, v0)
             top = cur_hard if cur_hard != INF else 2**62
+            if res == resource.RLIMIT_CPU and top > 2**33:
+                # the kernel converts the CPU-time limit to nanoseconds: beyond 2**64/1e9 s the product overflows, the limit
+                # looks exceeded as soon as the target runs, and the kernel itself raises the soft limit by one per second
+                # (seen as read-back 2**61+1 under load, while the child was still starting up)
+                top = 2**33
             floor = 1 << 26 if res in memish else 0
             cands = []
             if cur_hard == INF:
